@@ -18,6 +18,7 @@ import (
 	"strings"
 
 	"github.com/bufbuild/buf/private/bufpkg/bufprotosource"
+	"github.com/bufbuild/buf/private/pkg/slicesext"
 	"github.com/bufbuild/buf/private/pkg/stringutil"
 )
 
@@ -73,7 +74,9 @@ func getImportCycleIfExists(
 	}
 	usedPackageMap[pkg] = struct{}{}
 	// Will never equal pkg
-	for directlyImportedPackage := range packageToDirectlyImportedPackageToFileImports[pkg] {
+	// Sorted so that the cycle that is reported does not depend on map iteration order
+	// when a package is part of several import cycles.
+	for _, directlyImportedPackage := range slicesext.MapKeysToSortedSlice(packageToDirectlyImportedPackageToFileImports[pkg]) {
 		// Can equal "" per the function signature of PackageToDirectlyImportedPackageToFileImports
 		if directlyImportedPackage == "" {
 			continue
